@@ -28,73 +28,9 @@ def run(prog, chk):
     chk.rule('R17.3', 'outcome string = last measurements in index order, or ? if any element is unmeasured; both recorders agree')
     chk.rule('R17.4', 'CLI: aggregate = sum over shots; shots and echo policy as documented')
     chk.rule('R17.5', 'printed probability = count / (sum of that variable\'s counts)')
+    recorder_tables(prog, chk, R)
     end = R.ev_method('endScope')
     rec = R.ev_method('recordTrackedValue')
-    for f in (end, rec):
-        for lp in SX.walk(f.body):
-            if lp['k'] in ('for', 'while', 'do'):
-                raise AnalysisBroken('%s contains a non-range loop: the uniform-loop quotient does not apply' % f.short)
-    last = [0, 1, -1]          # index 0 measured 0, index 1 measured 1, index 2 never measured; 7 and -1 are out of range
-    cls_of = {0: '0', 1: '1', 2: None, 7: None, -1: None}
-
-    def want_scalar(q):
-        return cls_of[q] if cls_of[q] is not None else '?'
-
-    def want_array(qs):
-        return '?' if any(cls_of[q] is None for q in qs) else ''.join(cls_of[q] for q in qs)
-
-    def val(kind, payload=None):
-        v = Obj(type=T + kind, qubit=-1, qubitArray=[], intValue=0)
-        if kind == 'Qubit':
-            v['qubit'] = payload
-        if kind == 'QubitArray':
-            v['qubitArray'] = list(payload)
-        return v
-    arrays = [tuple(x) for n in range(0, 4) for x in itertools.product((0, 1, 2, 7), repeat=n)]
-    scal = [0, 1, 2, 7, -1]
-    n_states = 0
-    bad1, bad3, badpop, badagree = [], [], [], []
-    for payload, kind in [(q, 'Qubit') for q in scal] + [(a, 'QubitArray') for a in arrays]:
-        want = want_scalar(payload) if kind == 'Qubit' else want_array(payload)
-        for tracked in (True, False):
-            n_states += 1
-            scope = {'v': Obj(value=val(kind, payload), tracked=tracked, initialized=True),
-                     'other': Obj(value=val('Int'), tracked=True, initialized=True),
-                     'plain': Obj(value=val('Qubit', 0), tracked=False, initialized=True)}
-            this = Obj(m_env=[{'outer': Obj(value=val('Qubit', 1), tracked=True, initialized=True)}, scope], m_lastMeasurement=list(last), m_trackedCounts={})
-            it = Interp(prog, {'move': lambda it, e, env: it.expr(SX.real_args(e)[0], env)})
-            try:
-                it.call_fn_env(end, [], {'this': this})
-            except OutOfRange as e:
-                bad3.append((kind, payload, tracked, str(e), 'reads the last-measurement vector out of range'))
-                continue
-            except Unsupported as e:
-                raise AnalysisBroken('abstract evaluation of endScope: %s' % e)
-            counts = this['m_trackedCounts']
-            key = ('qubit ' if kind == 'Qubit' else 'qubit[] ') + 'v'
-            expect = {key: {want: 1}} if tracked else {}
-            if counts != expect:
-                (bad3 if tracked and list(counts) == [key] and sum(counts[key].values()) == 1 else bad1).append((kind, payload, tracked, counts, expect))
-            if len(this['m_env']) != 1 or 'outer' not in this['m_env'][0]:
-                badpop.append((kind, payload))
-            if tracked:
-                this2 = Obj(m_lastMeasurement=list(last), m_trackedCounts={})
-                it2 = Interp(prog, {})
-                try:
-                    it2.call_fn_env(rec, ['K.f', val(kind, payload)], {'this': this2})
-                except OutOfRange as e:
-                    badagree.append((kind, payload, str(e), want))
-                    continue
-                except Unsupported as e:
-                    raise AnalysisBroken('abstract evaluation of recordTrackedValue: %s' % e)
-                c2 = this2['m_trackedCounts']
-                if c2 != {'K.f': {want: 1}}:
-                    badagree.append((kind, payload, c2, want))
-    chk.extra['recorder_states'] = n_states
-    chk.ob('R17.1', end, end.ln, not bad1, 'scope exit counts exactly the tracked qubit/qubit[] entries of the closing scope, once each; counterexamples: %s' % bad1[:2], key='count-once')
-    chk.ob('R17.1', end, end.ln, not badpop, 'the closing scope (and only it) is popped after recording; counterexamples: %s' % badpop[:2], key='pops-scope')
-    chk.ob('R17.3', end, end.ln, not bad3, 'outcome string: counterexamples %s' % bad3[:3], key='outcome:endScope')
-    chk.ob('R17.3', rec, rec.ln, not badagree, 'object-field recorder agrees with the scope recorder on every state; counterexamples: %s' % badagree[:3], key='outcome:recordTrackedValue')
 
     # the record the outcome strings are built from: each measurement is stored under the measured qubit's own index (C02's R02.5)
     from .C02 import evaluator_measure_sites
@@ -299,6 +235,79 @@ def _declarator_siblings(prog, chk):
                    'the additional declarator node `%s` receives every attribute the first one (`%s`) receives; missing: %s — a `@tracked qubit a, b;` then tracks only `a`' %
                    (other['name'], first['name'], missing), key='declarators:%s:%s' % (f.short, other['name']))
     chk.count('additional declarator nodes', n_, 1)
+
+
+def recorder_tables(prog, chk, R, r1='R17.1', r3='R17.3'):
+    """the scope-exit recorder and the object-field recorder evaluated abstractly on every small state (also run by C02: the recorded
+    outcome must be the bits the measurements returned, element by element in index order)"""
+    end = R.ev_method('endScope')
+    rec = R.ev_method('recordTrackedValue')
+    for f in (end, rec):
+        for lp in SX.walk(f.body):
+            if lp['k'] in ('for', 'while', 'do'):
+                raise AnalysisBroken('%s contains a non-range loop: the uniform-loop quotient does not apply' % f.short)
+    last = [0, 1, -1]          # index 0 measured 0, index 1 measured 1, index 2 never measured; 7 and -1 are out of range
+    cls_of = {0: '0', 1: '1', 2: None, 7: None, -1: None}
+
+    def want_scalar(q):
+        return cls_of[q] if cls_of[q] is not None else '?'
+
+    def want_array(qs):
+        return '?' if any(cls_of[q] is None for q in qs) else ''.join(cls_of[q] for q in qs)
+
+    def val(kind, payload=None):
+        v = Obj(type=T + kind, qubit=-1, qubitArray=[], intValue=0)
+        if kind == 'Qubit':
+            v['qubit'] = payload
+        if kind == 'QubitArray':
+            v['qubitArray'] = list(payload)
+        return v
+    arrays = [tuple(x) for n in range(0, 4) for x in itertools.product((0, 1, 2, 7), repeat=n)]
+    scal = [0, 1, 2, 7, -1]
+    n_states = 0
+    bad1, bad3, badpop, badagree = [], [], [], []
+    for payload, kind in [(q, 'Qubit') for q in scal] + [(a, 'QubitArray') for a in arrays]:
+        want = want_scalar(payload) if kind == 'Qubit' else want_array(payload)
+        for tracked in (True, False):
+            n_states += 1
+            scope = {'v': Obj(value=val(kind, payload), tracked=tracked, initialized=True),
+                     'other': Obj(value=val('Int'), tracked=True, initialized=True),
+                     'plain': Obj(value=val('Qubit', 0), tracked=False, initialized=True)}
+            this = Obj(m_env=[{'outer': Obj(value=val('Qubit', 1), tracked=True, initialized=True)}, scope], m_lastMeasurement=list(last), m_trackedCounts={})
+            it = Interp(prog, {'move': lambda it, e, env: it.expr(SX.real_args(e)[0], env)})
+            try:
+                it.call_fn_env(end, [], {'this': this})
+            except OutOfRange as e:
+                bad3.append((kind, payload, tracked, str(e), 'reads the last-measurement vector out of range'))
+                continue
+            except Unsupported as e:
+                raise AnalysisBroken('abstract evaluation of endScope: %s' % e)
+            counts = this['m_trackedCounts']
+            key = ('qubit ' if kind == 'Qubit' else 'qubit[] ') + 'v'
+            expect = {key: {want: 1}} if tracked else {}
+            if counts != expect:
+                (bad3 if tracked and list(counts) == [key] and sum(counts[key].values()) == 1 else bad1).append((kind, payload, tracked, counts, expect))
+            if len(this['m_env']) != 1 or 'outer' not in this['m_env'][0]:
+                badpop.append((kind, payload))
+            if tracked:
+                this2 = Obj(m_lastMeasurement=list(last), m_trackedCounts={})
+                it2 = Interp(prog, {})
+                try:
+                    it2.call_fn_env(rec, ['K.f', val(kind, payload)], {'this': this2})
+                except OutOfRange as e:
+                    badagree.append((kind, payload, str(e), want))
+                    continue
+                except Unsupported as e:
+                    raise AnalysisBroken('abstract evaluation of recordTrackedValue: %s' % e)
+                c2 = this2['m_trackedCounts']
+                if c2 != {'K.f': {want: 1}}:
+                    badagree.append((kind, payload, c2, want))
+    chk.extra['recorder_states'] = n_states
+    chk.ob(r1, end, end.ln, not bad1, 'scope exit counts exactly the tracked qubit/qubit[] entries of the closing scope, once each; counterexamples: %s' % bad1[:2], key='count-once')
+    chk.ob(r1, end, end.ln, not badpop, 'the closing scope (and only it) is popped after recording; counterexamples: %s' % badpop[:2], key='pops-scope')
+    chk.ob(r3, end, end.ln, not bad3, 'outcome string: counterexamples %s' % bad3[:3], key='outcome:endScope')
+    chk.ob(r3, rec, rec.ln, not badagree, 'object-field recorder agrees with the scope recorder on every state; counterexamples: %s' % badagree[:3], key='outcome:recordTrackedValue')
+
 
 
 def return_slot_obligations(prog, R):
